@@ -92,6 +92,7 @@ fn h_index(op: &str, a: &[&str]) -> Option<String> {
                 Ok(ix) => {
                     let exps: Vec<&str> = if *exp == "-" { vec![] } else { exp.split(',').collect() };
                     let mut bad = None;
+                    let mut zero = None;
                     let mut out = Vec::new();
                     for (i, id) in ids.iter().enumerate() {
                         set_fail_at(None);
@@ -101,8 +102,14 @@ fn h_index(op: &str, a: &[&str]) -> Option<String> {
                         let probes = (ops - if r.is_some() { 2 } else { 0 }) / 2;
                         let rs = r.map(|x| x.to_string()).unwrap_or("n".into());
                         if let Some(x) = exps.get(i) {
-                            if *x != "-" && *x != rs && bad.is_none() {
-                                bad = Some(format!("find-differs id={id} scan={x} find={rs}"));
+                            if *x != "-" && *x != rs {
+                                if *id == 0 {
+                                    // key 0 is the unused-slot marker (known finding C17-1); reported
+                                    // only when no other key disagrees with the scan
+                                    zero = Some(format!("find-zero-id scan={x} find={rs}"));
+                                } else if bad.is_none() {
+                                    bad = Some(format!("find-differs id={id} scan={x} find={rs}"));
+                                }
                             }
                         }
                         if probes > ix.slot_count() as u64 && bad.is_none() {
@@ -110,7 +117,7 @@ fn h_index(op: &str, a: &[&str]) -> Option<String> {
                         }
                         out.push(format!("{rs}:{probes}"));
                     }
-                    with_oracle(format!("ok {}", join(",", &out)), bad)
+                    with_oracle(format!("ok {}", join(",", &out)), bad.or(zero))
                 }
                 Err(x) => format!("err {}", rerr(&x)),
             })
@@ -737,7 +744,15 @@ fn h_loader(op: &str, a: &[&str]) -> Option<String> {
                 });
             }
             let s = join(";", &out);
-            let bad = if *exp != "-" && *exp != s { Some(format!("dwp-unit-differs standalone={exp}")) } else { None };
+            let bad = if *exp != "-" && *exp != s {
+                // differences confined to the key 0 are the known finding C17-1
+                let ex: Vec<&str> = exp.split(';').collect();
+                let only_zero = ex.len() == out.len()
+                    && ids.split(',').zip(ex.iter().zip(out.iter())).all(|(t, (a, b))| *a == b.as_str() || &t[1..] == "0");
+                Some(format!("{} standalone={exp}", if only_zero { "find-zero-id" } else { "dwp-unit-differs" }))
+            } else {
+                None
+            };
             Some(with_oracle(format!("ok {s}"), bad))
         }
         ("attr", [e, f, asz, sob, ab, st, lst, so, ad, sup, kind, val, exp]) => {
@@ -1136,9 +1151,9 @@ fn gen_index(ctx: &Ctx, emit: &mut dyn FnMut(String)) {
                             exps.push("n".into());
                         }
                     }
-                    // id 0 is the "unused" marker: no expectation, correspondence only
+                    // id 0 is the "unused" marker and can never be a present key
                     probe_ids.push(0);
-                    exps.push("-".into());
+                    exps.push("n".into());
                     let ids_s = probe_ids.iter().map(|x| x.to_string()).collect::<Vec<_>>();
                     emit(format!("ix-find {} {} {} {}", es(big), h, join(",", &ids_s), join(",", &exps)));
                     if k <= 5 {
@@ -2314,6 +2329,10 @@ fn gen_dwp(ctx: &Ctx, emit: &mut dyn FnMut(String)) {
                     ids_s.push(format!("{which}{id}"));
                     exp.push("n".into());
                 }
+            }
+            if rng.chance(1, 3) {
+                ids_s.push(format!("{which}0"));
+                exp.push("n".into());
             }
         }
         emit(format!(
